@@ -24,8 +24,9 @@ LEVEL_TEXT = ('static analysis: (D1) each filter body is interpreted, through it
               'filters after, in list order; the CLI --filter choices are exactly the implemented @require_column functions; (D5) ci / sem / '
               'ampdel / cn interpreted end to end through the real squash_by_groups on literal 6-row tables whose index labels are a permutation:'
               ' each merges exactly the runs of its own level (a level vector re-wrapped on a fresh 0..n-1 index is aligned by label onto the '
-              'wrong rows). Decides the run-length grouping on that scope only (longer tables follow the same cumulative-key construction; no '
-              'induction is attempted).')
+              'wrong rows). D2 includes neighbours that both lack allelic copy numbers (cn1 = cn2 missing): they share their level; a missing '
+              'level next to a known one is left unspecified. Decides the run-length grouping on that scope only (longer tables follow the same '
+              'cumulative-key construction; no induction is attempted).')
 TECHNIQUE = ('abstract interpretation of the filter bodies over order positions; bounded exhaustive interpretation of the grouping on literal '
              'tables; closed forms on symbolic groups; dominance; index-label alignment hazard on literal tables')
 
@@ -390,6 +391,9 @@ def run(chk):
     d3(chk, prog)
     d4(chk, prog)
     d5(chk, prog)
+    chk.clause("CLI", "the `call` command line: every --filter, in the order given, reaches do_call")
+    from .. import cliglue
+    cliglue.check_call(chk, prog)
 
 
 _F = "cnvlib/segfilters.py"
